@@ -79,6 +79,44 @@ MUTANTS = [
     ("r9-pairs-crossed", "violations", "R9", "C09", "R09.2", "table pairs Format::Json with the YAML trial",
      [("src/detect.rs", "(Format::Json, json::input_matches)", "(Format::Json, yaml::input_matches)"),
       ("src/detect.rs", "(Format::Yaml, yaml::input_matches),\n\t// Finally", "(Format::Yaml, json::input_matches),\n\t// Finally")]),
+    ("r10-detect-always", "violations", "R10", "C14", "R14.1", "detection helper runs even when a source format was given",
+     [("src/lib.rs", "\t\tlet source_format = if let Some(format) = from {\n\t\t\tformat\n\t\t} else {\n\t\t\tdetect_or_fail(&mut input)?\n\t\t};", "\t\tlet detected = detect_or_fail(&mut input)?;\n\t\tlet source_format = from.unwrap_or(detected);")]),
+    ("r10-undetected-is-json", "violations", "R10", "C09", "R09.5", "undetected input silently treated as JSON",
+     [("src/lib.rs", "\tlet Some(format) = detect::detect_format(input)? else {\n\t\treturn Err(\"unable to detect input format\".into());\n\t};\n\tOk(format)", "\tOk(detect::detect_format(input)?.unwrap_or(Format::Json))")]),
+    ("r11-marker-after", "violations", "R11", "C03", "R03.1", "document marker written after the document",
+     [("src/yaml.rs", "\t\tself.start_document()?;\n\t\tserde_yaml::to_writer(&mut self.writer, &value)?;\n\t\tOk(())", "\t\tserde_yaml::to_writer(&mut self.writer, &value)?;\n\t\tself.start_document()?;\n\t\tOk(())")]),
+    ("r11-fast-path-any-utf8", "violations", "R11", "C07,C02", "R02.1", "helper no longer consults the encoding detector: ASCII-only UTF-16 takes the UTF-8 fast path",
+     [("src/yaml.rs", "\tlet text = str::from_utf8(bytes).ok()?;\n\tmatch Encoding::detect(bytes) {\n\t\tEncoding::Utf8 => Some(text),\n\t\t_ => None,\n\t}", "\tstr::from_utf8(bytes).ok()")]),
+    ("r12-countdown-unguarded", "violations", "R12", "C04", "R04.1", "countdown decremented before the test: underflow panic in debug builds / endless loop",
+     [("src/msgpack.rs", "\twhile remaining > 0 {\n\t\tif rest.is_empty() {", "\tloop {\n\t\tremaining -= 1;\n\t\tif remaining == u32::MAX { break; }\n\t\tif rest.is_empty() {"),
+      ("src/msgpack.rs", "\t\trest = &rest[size..];\n\t\tremaining -= 1;\n", "\t\trest = &rest[size..];\n")]),
+    ("r12-size-check-dropped", "violations", "R12", "C04", "R04.2", "early-return size check removed",
+     [("src/msgpack.rs", "\tif total_size > input.len() {\n\t\treturn Err(ReadSizeError::Truncated);\n\t}\n\tOk(total_size)", "\tOk(total_size)")]),
+    ("r13-split-unbounded", "violations", "R13", "C04", "R04.1", "split point no longer bounded by the buffer length",
+     [("src/input.rs", "let prefix_size = buf.len().min(self.captured_unread_size());", "let prefix_size = self.captured_unread_size();")]),
+    ("r13-capture-to-translator", "violations", "R13", "C05", "R05.2", "capture reader itself boxed for the translator",
+     [("src/input.rs", "\t\tlet fully_buffered = capture.is_source_eof();\n\t\tlet (captured, source) = capture.into_inner();\n\t\tif fully_buffered {\n\t\t\treturn Input::Slice(Cow::Owned(captured.into_inner()));\n\t\t}\n\t\tInput::Reader(if captured.get_ref().is_empty() {\n\t\t\tsource\n\t\t} else {\n\t\t\tBox::new(FusedReader::new(captured).chain(source))\n\t\t})",
+       "\t\tif capture.is_source_eof() {\n\t\t\tlet (captured, _source) = capture.into_inner();\n\t\t\treturn Input::Slice(Cow::Owned(captured.into_inner()));\n\t\t}\n\t\tInput::Reader(Box::new(capture))")]),
+    ("r14-capture-as-de", "violations", "R14", "C11", "R11.2", "capture helper records the deserializer as origin",
+     [("src/transcode/stream.rs", "\t\tself.capture_error(ErrorSource::Ser, ser_err);\n\t\tde::Error::custom(TRANSLATION_FAILED)", "\t\tself.capture_error(ErrorSource::De, ser_err);\n\t\tde::Error::custom(TRANSLATION_FAILED)")]),
+    ("r15-dup-guard-removed", "violations", "R15", "C13", "R13.5", "set_format_once overwrites silently",
+     [("src/main.rs", "\t\tif slot.is_some() {\n\t\t\treturn Err(duplicate_message.into());\n\t\t}\n", "\t\tlet _ = duplicate_message;\n")]),
+    ("r15-yml-alias", "violations", "R15", "C13", "R13.4", "undocumented format name accepted",
+     [("src/main.rs", "\t\t\"y\" | \"yaml\" => Format::Yaml,\n\t\t_ => return Err", "\t\t\"y\" | \"yaml\" | \"yml\" => Format::Yaml,\n\t\t_ => return Err")]),
+    ("r16-end-error-is-eof", "violations", "R16", "C12", "R12.1", "reader loop stops on any end() outcome other than trailing data",
+     [("src/json.rs", "\t\tif de.end().is_ok() {\n\t\t\treturn Ok(());\n\t\t}\n\t\toutput.transcode_from(&mut de)?;", "\t\tif de.end().is_ok() {\n\t\t\treturn Ok(());\n\t\t}\n\t\tlet _ = output.transcode_from(&mut de);")]),
+    ("r16-entries-reversed", "violations", "R16", "C01", "", "map entries serialized value-first",
+     [("src/transcode/value.rs", "\t\tmap.serialize_entry(key, value)?;", "\t\tmap.serialize_entry(value, key)?;")]),
+    ("r17-kind-overwritten", "violations", "R17", "C10", "R10.2", "helper overwrites the document kind",
+     [("src/yaml/chunker.rs", "\t\tif self.current_document_kind.is_none() {\n\t\t\tself.current_document_kind = Some(kind);\n\t\t}", "\t\tself.current_document_kind = Some(kind);")]),
+    ("r17-len-guard-removed", "violations", "R17", "C17", "R17.2", "early-return read handler loses its length guard",
+     [("src/yaml/chunker/parser.rs", "Ok(read_len) if read_len <= buffer_size => read_len,", "Ok(read_len) if read_len <= read_state.bounce_buffer.capacity() => read_len,")]),
+    ("r18-flag-not-set", "violations", "R18", "C08", "R08.1", "renamed one-shot flag never set",
+     [("src/toml.rs", "\t\tself.consumed = true;\n", "")]),
+    ("r18-wrong-kind", "violations", "R18", "C16", "R16.2", "renamed check compares the wrong ErrorKind",
+     [("src/pipecheck.rs", "err.kind() == io::ErrorKind::BrokenPipe => die_by_sigpipe()", "err.kind() == io::ErrorKind::ConnectionReset => die_by_sigpipe()")]),
+    ("r18-detect-despite-request", "violations", "R18", "C14", "R14.1", "resolve_format detects first and only then looks at the request",
+     [("src/detect.rs", "\tif let Some(format) = requested {\n\t\treturn Ok(format);\n\t}\n\tmatch detect_format(input)? {\n\t\tSome(format) => Ok(format),", "\tmatch detect_format(input)? {\n\t\tSome(format) => Ok(requested.unwrap_or(format)),")]),
     ("r9-result-ignored", "violations", "R9", "C09", "R09.2", "the first row's format is returned whatever its trial says",
      [("src/detect.rs", "\t\tif input_matches(input.borrow_mut())? {\n\t\t\treturn Ok(Some(format));\n\t\t}\n", "\t\tlet _ = input_matches(input.borrow_mut())?;\n\t\treturn Ok(Some(format));\n")]),
 ]
